@@ -109,7 +109,7 @@ def directory_rule(build_inputs, buildfile, env):
     buildfile.rule(
         target=pattern,
         recipe=[
-            Silent(mkdir_p(qvar('*'))),
-            Silent(['touch', qvar('@')])
+            Silent(mkdir_p('--', qvar('*'))),
+            Silent(['touch', '--', qvar('@')])
         ]
     )
